@@ -206,7 +206,10 @@ def extra_obligations(w, tier, seed):
     guard_ok = False
     for n in ast.walk(node):
         if isinstance(n, ast.If) and 'Modifying' in ast.unparse(n.test) and any(is_append(m) for s_ in n.body for m in ast.walk(s_)):
-            guard_ok = 'is' in ast.unparse(n.test) or '==' in ast.unparse(n.test)
+            # the guard is the volatility test ALONE: one comparison of <func>.get_volatility(..) with Volatility.Modifying, no further condition (inlined or not, SQL or EdgeQL body)
+            t_ = n.test
+            guard_ok = (isinstance(t_, ast.Compare) and len(t_.ops) == 1 and isinstance(t_.ops[0], (ast.Eq, ast.Is)) and 'get_volatility' in ast.unparse(t_.left)
+                        and ast.unparse(t_.comparators[0]).endswith('Volatility.Modifying'))
     out.append(_ob('scan/compile_FunctionCall/records-modifying-call', 'compile_FunctionCall: a call of a Modifying function is appended to ctx.env.dml_exprs',
                    guard_ok, where='%s:compile_FunctionCall line %d' % (FUNC, node.lineno)))
     # 2. ownership: DML IR statements are only constructed in those three functions (+ the inventoried static-evaluation site)
